@@ -1066,6 +1066,50 @@ fn gen_c15<W: Write>(r: &mut Rng, thorough: bool, out: &mut W) {
         }
         writeln!(out, "build w={w} k={k} rc={rc} recs={}", recs.join(",")).unwrap();
     }
+    // the distance weights: tables in which the same ambiguity code (or N) sits in several samples
+    // of one row next to a differing sample, with ambiguous bases allowed and masked
+    let rounds = if thorough { 3000 } else { 200 };
+    for _ in 0..rounds {
+        let (k, w) = pick_k(r);
+        let rc = r.below(2) == 1;
+        let nsamp = 2 + r.below(4);
+        let names: Vec<String> = (0..nsamp).map(|i| format!("s{i}")).collect();
+        let mut rows: Vec<String> = Vec::new();
+        let mut seen: Vec<u128> = Vec::new();
+        for _ in 0..(1 + r.below(5)) {
+            let arms = canonical_arms(r, k, rc);
+            if seen.contains(&pack(&arms)) {
+                continue;
+            }
+            seen.push(pack(&arms));
+            let code = *r.pick(&AMBIG);
+            let other = *r.pick(&CODE_ORDER);
+            let cells: Vec<u8> = (0..nsamp)
+                .map(|i| match r.below(6) {
+                    0 => b'-',
+                    1 => other,
+                    2 => *r.pick(&AMBIG),
+                    _ => if i % 2 == 0 || r.chance(1, 2) { code } else { other },
+                })
+                .collect();
+            if cells.iter().all(|c| *c == b'-') {
+                continue;
+            }
+            rows.push(format!("{}:{}", pack(&arms), String::from_utf8(cells).unwrap()));
+        }
+        if rows.is_empty() {
+            continue;
+        }
+        writeln!(
+            out,
+            "hist w={w} k={k} rc={} start={}|{} ops=~ obs=dist/0/0;dist/0/1;rawdist/{}",
+            rc as u8,
+            names.join(","),
+            rows.join(","),
+            r.below(3)
+        )
+        .unwrap();
+    }
 }
 
 fn gen_c12<W: Write>(r: &mut Rng, thorough: bool, out: &mut W) {
